@@ -159,7 +159,7 @@ def vxint(t, isinf):
 def to_int(v: Val):
     """Encoding of a value as a single SMT Int for storage in the heap."""
     k = v.ty.kind
-    if k in ("int", "ref", "list", "any", "deque", "callref", "emptydict", "ext", "enum"):
+    if k in ("int", "ref", "list", "any", "deque", "callref", "emptydict", "ext", "enum", "tupref"):
         return v.t
     if k == "set":
         raise TypeError("a set value cannot be stored in the heap (sets are local values)")
